@@ -26,7 +26,8 @@ LEVEL = "fault_enumeration"
 RULE = ("case = (task in compress/condense/repack/join/split/tdms2rtdc, generated input variant "
         "incl. stale output and stale temporary files, operation index k of the fault-free run, "
         "mode in {raise EIO, kill}); quick: every 6th k plus the first 6 and last 8, thorough: all "
-        "k. Non-trivial = a failpoint that was actually reached (the child reported the hit); "
+        "k; after every 3rd (thorough: 2nd) failpoint the same command is run again in the "
+        "directory the interrupted run left behind. Non-trivial = a failpoint that was actually reached (the child reported the hit); "
         "distinct by (task, variant, k, mode)")
 LEVEL_TEXT = ("Fault enumeration over every hooked file-system operation of each task run (HDF5 "
               "dataset write, group/attribute creation, object copy, resize, file close, rename), "
@@ -42,6 +43,7 @@ TECHNIQUE = ("fault injection at hooked operations (fork-per-failpoint enumerati
              "file-system oracle + offline checker over a recorded strace event log")
 ASSUMPTIONS = ["input path != output path", "leftover *.rtdc~ temporary files are allowed"]
 MIN_EVALS = {"c10.fault.output_absent_or_complete": 300, "c10.fault.inputs_unmodified": 300,
+             "c10.rerun.output_absent_or_complete": 100,
              "c10.trace.checked_runs": 3}
 WATCHDOG_S = {"quick": 500, "thorough": 3400}
 TASKS = ["compress", "repack", "condense", "join", "split", "tdms2rtdc"]
@@ -108,7 +110,12 @@ def make_inputs(task, variant, rng, d):
         info["outputs"] = [str(d / "out.rtdc")]
     elif task == "split":
         p = d / "meas.rtdc"
-        gd.write_model(p, model(n))
+        m = model(n)
+        if variant % 2 == 0:
+            # without tables a second run can append to a left-over temporary file (tables
+            # cannot be stored twice): the rerun histories need such inputs as well
+            m["tables"], m["table_inputs"] = {}, {}
+        gd.write_model(p, m)
         info["inputs"] = [str(p)]
         se = max(2, n // 3)
         info["split_events"] = se
@@ -261,7 +268,7 @@ def run_faults(spec, ctx):
         ks = list(range(1, nops + 1))
     ks = [k for i, k in enumerate(ks) if i % spec.get("parts", 1) == spec.get("part", 0)]
     hit_path = str(d / "hit.txt")
-    for k in ks:
+    for ki, k in enumerate(ks):
         for mode in ("raise", "kill"):
             clear_outputs(info, d)
             stale = place_stale(info) if info["stale"] else {}
@@ -290,6 +297,25 @@ def run_faults(spec, ctx):
                       message=f"{task}: input modified after fault at op {k}: {r['inputs_changed']}")
             ctx.mark_nontrivial([task, variant, k, mode])
             ctx.count(f"faults_injected[{mode}]")
+            # ---- the same command is run again in the directory the interrupted run left
+            # behind (no clean-up in between): it must either refuse / fail without creating
+            # an output, or produce the complete outputs of an undisturbed run
+            if ki % (3 if ctx.tier == "quick" else 2) == 0:
+                code2 = faults.run_child(run)
+                v2 = faults.call_in_child(lambda: verify(info, str(ref_dir), in_sha, stale))
+                if not v2["ok"]:
+                    ctx.error("verify rerun", RuntimeError(v2.get("exc", "") + v2.get("tb", "")))
+                    continue
+                r2 = v2["result"]
+                ctx.check("c10.rerun.output_absent_or_complete", not r2["outputs"],
+                          lambda: dict(case, rerun_exit=code2, problems=r2["outputs"]),
+                          message=f"{task}: run again after {mode} before op {k}/{nops} "
+                                  f"({ops[k - 1]}): an output path holds a partial/wrong file: "
+                                  f"{r2['outputs'][:1]}")
+                ctx.check("c10.fault.inputs_unmodified", not r2["inputs_changed"],
+                          lambda: dict(case, rerun=True, changed=r2["inputs_changed"]),
+                          message=f"{task}: input modified by the rerun: {r2['inputs_changed']}")
+                ctx.count(f"reruns_after_interruption[{'completed' if code2 == 0 else 'refused'}]")
             if code == 0 and mode == "raise":
                 ctx.count("task_survived_injected_error")
     ctx.sample({"task": task, "variant": variant, "operations": nops, "failpoints": len(ks) * 2,
